@@ -29,7 +29,11 @@ type VerifClientOpts struct {
 	RefreshInterval     int // ms
 	Registrar           registry.Registrar
 	MsgID               int32
-	KeepApp             bool // use the application created by VerifNewApp (client and server in one process)
+	// CacheObj != "": the application's endpoint cache (the <server>.tarsdat file read at start-up) has this
+	// entry for the object, with the communicator's locator and no set division
+	CacheObj string
+	CacheEps []endpointf.EndpointF
+	KeepApp  bool // use the application created by VerifNewApp (client and server in one process)
 }
 
 // VerifNewApp installs a fresh default application (no flags, no config file, no reporters).
@@ -94,7 +98,11 @@ func VerifNewCommunicator(o VerifClientOpts) *Communicator {
 	if o.Registrar != nil {
 		opts = append(opts, Registrar(o.Registrar))
 	}
-	return newCommunicator(app, c, opts...)
+	comm := newCommunicator(app, c, opts...)
+	if o.CacheObj != "" {
+		app.appCache.ObjCaches = []ObjCache{{Name: o.CacheObj, Locator: comm.GetLocator(), Endpoints: o.CacheEps}}
+	}
+	return comm
 }
 
 // VerifRefresh runs one registry refresh of the proxy's endpoint manager now (what the refresh
